@@ -40,8 +40,17 @@ theorem settings_readers_are_the_modelled_ones :
        ("patternValidationDisabled", ["visitJSONString"]),
        ("readOnlyValidationDisabled", ["visitJSONObject"]), ("writeOnlyValidationDisabled", ["visitJSONObject"]),
        ("regexCompiler", ["visitJSONString"]), ("onceSettingDefaults", ["visitJSONObject"]), ("defaultsSet", ["visitJSONObject"]),
+       -- 6a3f133: > 0 while a oneOf/anyOf candidate runs on its private copy; only gates the DefaultsSet CALLBACK (`callbackFires`)
+       ("trial", ["visitJSONObject", "visitXOFOperations"]),
        ("customizeMessageError", ["expectedType", "visitEnumOperation", "visitJSON", "visitJSONArray", "visitJSONNull", "visitJSONNumber",
                                   "visitJSONObject", "visitJSONString", "visitNotOperation", "visitXOFOperations"])] := by decide
+
+/-- the settings record has exactly the fields the model accounts for (a new field must be placed before this holds again) -/
+theorem settings_fields_are_the_modelled_ones :
+    Gen.validationSettingsFields =
+      ["failfast", "multiError", "asreq", "asrep", "formatValidationEnabled", "patternValidationDisabled",
+       "readOnlyValidationDisabled", "writeOnlyValidationDisabled", "regexCompiler", "onceSettingDefaults", "defaultsSet",
+       "trial", "customizeMessageError"] := by decide
 
 /-- `EnableFormatValidation()` cannot influence a verdict: the field it sets is read nowhere in package openapi3 -/
 theorem format_switch_is_dead : Gen.settingsReads.lookup "formatValidationEnabled" = some [] := by decide
